@@ -41,6 +41,9 @@ type c13Spec struct {
 	// the pings start to fail: "parked" (it waits for its context to end, as a long-running tool does) or "busy"
 	// (it works for 2.5 intervals, ignoring its context). A dead peer must be given up on time all the same.
 	Incoming string `json:"incoming,omitempty"`
+	// CloseOnTick: the application's Close falls on the very instant of a keep-alive tick (which of the two goes
+	// first is the scheduler's choice)
+	CloseOnTick bool `json:"close_on_tick,omitempty"`
 }
 
 func genC13(r *vh.Rand, idx int) c13Spec {
@@ -89,6 +92,9 @@ func genC13(r *vh.Rand, idx int) c13Spec {
 			s.Pattern[i] = "A"
 		}
 		s.PendAnswer = r.Range(2, 14)
+	}
+	if s.PendAnswer > 0 && r.Bool() {
+		s.CloseOnTick = true
 	}
 	if !s.Pending && s.Hand == "" && r.Chance(1, 4) {
 		s.Incoming = "parked"
@@ -296,7 +302,11 @@ func runC13(c *vh.Case, spec c13Spec) {
 			log.Add("user-call-returned", "err", fmt.Sprint(err))
 		}()
 	}
-	time.Sleep(time.Duration(spec.CloseAfter)*iv + iv/4)
+	if spec.CloseOnTick {
+		time.Sleep(time.Duration(spec.CloseAfter) * iv)
+	} else {
+		time.Sleep(time.Duration(spec.CloseAfter)*iv + iv/4)
+	}
 	if userCall == nil {
 		if spec.Incoming == "parked" {
 			// a live peer withdraws its request before the application closes (a graceful Close waits for handlers)
@@ -309,7 +319,9 @@ func runC13(c *vh.Case, spec c13Spec) {
 	} else {
 		// The application closes gracefully while its own call is still outstanding. Close waits for the call:
 		// it ends when the peer answers, when keep-alive gives the peer up, or when the caller gives up.
-		synctestWait()
+		if !spec.CloseOnTick {
+			synctestWait()
+		}
 		log.Add("harness-close")
 		closed := make(chan struct{})
 		go func() {
@@ -472,6 +484,10 @@ func decideC13(c *vh.Case, spec c13Spec) {
 			c.Violate("unexpected-ping", "pings arrived at %s, reference model expects %s", desc(got), desc(wantPings))
 		}
 		return
+	}
+	if spec.CloseOnTick && len(wantPings) > 0 && wantPings[len(wantPings)-1] == harnessClose && len(got) == len(wantPings)-1 {
+		// the tick and the application's Close fell on one instant and the Close went first: no ping then
+		wantPings = wantPings[:len(wantPings)-1]
 	}
 	if len(got) < len(wantPings) {
 		if tclose >= 0 && tclose < wantPings[len(got)] && (wantClose < 0 || tclose < wantClose) {
